@@ -24,6 +24,7 @@
 
 #include "cctz/time_zone.h"
 #include "cctz/zone_info_source.h"
+#include "premain.h"
 #include "simsched.h"
 
 namespace sim {
@@ -463,6 +464,7 @@ char* __real_getenv(const char* name);
 
 FILE* __wrap_fopen(const char* path, const char* mode) {
   using namespace sim;
+  if (g_premain.active) return premain_fopen(path);   // (checked first: `fs` may not have been constructed yet)
   if (!fs.active) return __real_fopen(path, mode);
   HarnessScope hs;
   sim::yield(Y_FOPEN);
@@ -519,6 +521,7 @@ time_t time(time_t* out) noexcept {
 
 char* __wrap_getenv(const char* name) {
   using namespace sim;
+  if (g_premain.active) return premain_getenv(name);
   if (!env.active) return __real_getenv(name);
   HarnessScope hs;
   env.reads.push_back(name);
